@@ -15,6 +15,8 @@ fn leaves() -> Vec<V> {
     vec![
         V::Nil, V::Bool(true), V::Bool(false), V::Int(0), V::Int(-7), V::Int(i64::MAX), V::Int(i64::MIN), V::Float(0.5), V::Float(-2.0), V::Float(1e300),
         V::s(""), V::s(" "), V::s("\u{a0}"), V::s("\u{2003}\u{b}"), V::s("a"), V::s("é👍"), V::s("10"), V::s("2.5"), V::s("true"), V::s("nil"), V::s("2020-02-29"), V::s("2020-02-29 23:59:59 +0530"),
+        // texts that the *template* date parser understands but that are not in the canonical date form: as data they are strings
+        V::s("today"), V::s("now"), V::s("01 March 2022"), V::s("24 Dec 1999"), V::s("13 Jun 2016 12:00:00 +0000"),
         V::Date(2020, 2, 29), V::DateTime("2020-02-29 23:59:59 +0530".into()), V::DateTime("1999-12-31 23:59:59.005 -0330".into()),
     ]
 }
@@ -74,7 +76,12 @@ fn has_multikey(v: &V) -> bool {
 
 fn looks_like_date(v: &V) -> bool {
     match v {
-        V::Str(s) => liquid_core::model::DateTime::from_str(s).is_some() || liquid_core::model::Date::from_str(s).is_some(),
+        // the canonical forms `YYYY-MM-DD[ ...]` only: those are read back as dates (tolerated, 10.5); the friendlier
+        // spellings the template-side parser accepts are plain strings on this path
+        V::Str(s) => {
+            let b = s.as_bytes();
+            b.len() >= 10 && b[..4].iter().all(u8::is_ascii_digit) && b[4] == b'-' && b[5..7].iter().all(u8::is_ascii_digit) && b[7] == b'-' && b[8..10].iter().all(u8::is_ascii_digit)
+        }
         V::Arr(a) => a.iter().any(looks_like_date),
         V::Obj(o) => o.iter().any(|(_, x)| looks_like_date(x)),
         _ => false,
